@@ -291,3 +291,20 @@ Fixpoint flat_doc (d : fields) : bool :=
   | FCons (Field _ _ (Some _) (VScalar _ _)) d' => flat_doc d'
   | FCons _ _ => false
   end.
+
+(* no parameters, no mixed containers: objects, arrays (of scalars and of containers), headers,
+   empty containers, `key {` without `=` *)
+Fixpoint plain_value (v : value) : bool :=
+  match v with
+  | VScalar _ _ => true
+  | VObject fs tl => plain_fields fs && negb (values_nonempty tl)
+  | VArray items => plain_values items
+  | VArrayKv _ _ => false
+  | VHeader _ v => plain_value v
+  end
+with plain_field (f : field) : bool :=
+  match f with Field _ _ _ v => plain_value v | _ => false end
+with plain_fields (fs : fields) : bool :=
+  match fs with FNil => true | FCons f fs' => plain_field f && plain_fields fs' end
+with plain_values (vs : values) : bool :=
+  match vs with VNil => true | VCons v vs' => plain_value v && plain_values vs' end.
